@@ -63,7 +63,7 @@ def check_case(case, want=("C01",)):
         return res
     if case["fam"] == "mux":  # multi-input PMux: Vin from the selected input, its current charged to that input only
         from ..muxsys import mux_spec
-        spec = mux_spec([tuple(x) for x in case["inputs"]], case["pal"], case["rs_list"], below="deep", pol=case["pol"])
+        spec = mux_spec([tuple(x) for x in case["inputs"]], case["pal"], case["rs_list"], below="deep", pol=case["pol"], ig_table=case.get("ig_table", False))
         before = res.stats["nontrivial_rows"]
         phys.solve_and_check(res, spec, want)
         res.nontrivial = 1 if res.stats["nontrivial_rows"] > before else 0
@@ -140,6 +140,7 @@ def gen_cases(tier, want_mirror=True):
             for inputs in itertools.product(INPUT_OPTS if (k == 2 or tier != "quick") else INPUT_OPTS[::2], repeat=k):
                 for pol in (1, -1):
                     yield dict(fam="mux", inputs=[list(x) for x in inputs], pal=pal, rs_list=(k == 3), pol=pol, srs=0.0, n=k)
+                yield dict(fam="mux", inputs=[list(x) for x in inputs], pal=pal, rs_list=False, pol=1, srs=0.0, n=k, ig_table=True)
         zero = Trees(SIG_ZERO[0], SIG_ZERO[1], max_one=("MX0",))
         for n in (1, 2, 3):
             for f in zero.iter_forests(n):
